@@ -140,6 +140,15 @@ def edits(draw, structure, allow_hydrogens=True):
             n = draw(st.integers(1, 4))
             for _i in range(n):
                 line = draw(st.sampled_from(JUNK))
+                if line.startswith("SSBOND"):
+                    # an annotation that names cysteines of this structure (bridged or not: stale annotations exist)
+                    cys = sorted({(a.chain, a.resnum, a.icode) for a in pdbio.atoms_of(entries) if a.resn == "CYS"})
+                    if cys:
+                        c1 = cys[draw(st.integers(0, len(cys) - 1))]
+                        c2 = cys[draw(st.integers(0, len(cys) - 1))]
+                        line = "SSBOND   1 CYS %s %4d%s   CYS %s %4d%s                          1555   1555  2.03  \n" % (
+                            c1[0], c1[1], c1[2], c2[0], c2[1], c2[2])
+                        labels.append("ssbond-names-cys")
                 where = draw(st.sampled_from(["start", "start", "any", "end"]))
                 p = 0 if where == "start" else len(entries) if where == "end" else \
                     draw(st.integers(0, len(entries)))
